@@ -1,5 +1,6 @@
 (* C20 — Auth, method-override and http.Handler wrappers behave as gates. Property theorems only. *)
-From Rux Require Import Base Str Consts Writer Chain Dispatch Gates GatesFacts.
+From Rux Require Import Base Str Consts Writer Chain ChainFacts Dispatch Gates GatesFacts.
+Open Scope Z_scope.
 
 (* HTTPBasicAuth: for every account list and every Authorization header value, with base64 decoding an
    arbitrary function b64: the request is let through iff it carries well-formed Basic credentials and
@@ -14,6 +15,20 @@ Proof. exact auth_401_iff. Qed.
 Theorem C20_auth_403 : forall b64 accts hdr, basic_auth b64 accts hdr = Deny403 <->
   exists u p, parse_basic b64 hdr = Some (u, p) /\ accts <> [] /\ acct_lookup u accts <> Some p.
 Proof. exact auth_403_iff. Qed.
+
+(* as a gate of the handler chain: when the decision is not Allow, the request still completes and nothing after the
+   auth middleware starts (for every rest of the chain within the limit); when it is Allow every handler runs *)
+Theorem C20_auth_denied : forall b64 accts hdr (rest : list hprog) x0,
+  basic_auth b64 accts hdr <> Allow (match basic_auth b64 accts hdr with Allow u _ => u | _ => [] end)
+                                    (match basic_auth b64 accts hdr with Allow _ p => p | _ => [] end) ->
+  handlers_ok eff (auth_prog b64 accts hdr :: rest) ->
+  exists n c, mrun n (init xctx eff (auth_prog b64 accts hdr :: rest) x0) = Halt c /\ started c = [0%nat].
+Proof. exact auth_denied_nothing_downstream. Qed.
+Theorem C20_auth_allowed : forall b64 accts hdr u p (ws : list (wb eff)) x0,
+  basic_auth b64 accts hdr = Allow u p -> Z.of_nat (S (List.length ws)) <= 63 ->
+  exists n c, mrun n (init xctx eff (auth_prog b64 accts hdr :: map (prog eff) ws) x0) = Halt c
+              /\ started c = seq 0 (S (List.length ws)).
+Proof. exact auth_allowed_chain_runs. Qed.
 
 (* HTTPMethodOverrideHandler: rewritten only for POST and only to PUT / PATCH / DELETE (form value first, then
    header, compared case-insensitively), recording POST as the original method; unchanged otherwise *)
@@ -34,6 +49,8 @@ Proof. exact wrap_loop_is_spec. Qed.
 Print Assumptions C20_auth_allow.
 Print Assumptions C20_auth_401.
 Print Assumptions C20_auth_403.
+Print Assumptions C20_auth_denied.
+Print Assumptions C20_auth_allowed.
 Print Assumptions C20_override.
 Print Assumptions C20_override_whitelist.
 Print Assumptions C20_wrap.
